@@ -35,8 +35,8 @@ def anchors():
 def cases(seed, tier):
     q = tier == "quick"
     out = [{"fam": ["mob", "arc", "vor", "arc"][i % 4], "seed": [seed, 16, i], "count": 2} for i in range(64 if q else 500)]
-    out += [{"fam": ["lat-square", "lat-brick", "lat-hex", "lat-tri", "lat-fan"][i % 5], "seed": [seed, 16, 10 ** 5 + i], "count": 2}
-            for i in range(10 if q else 60)]
+    out += [{"fam": ["lat-square", "lat-brick", "lat-hex", "lat-tri", "lat-fan", "lat-diamond", "lat-rosette"][i % 7], "seed": [seed, 16, 10 ** 5 + i], "count": 2}
+            for i in range(14 if q else 70)]
     out += [{"fam": "series", "seed": [seed, 16, 2 * 10 ** 5 + i], "count": 1} for i in range(16 if q else 200)]
     return out
 
